@@ -149,6 +149,16 @@ pub fn f7_tw_newchunk<const M: usize, const TRY: bool, const MASK: u8>() {
                 vassert!(NFREE == 0 && ledger_live_count() == 2, "NEVER: [C03] a chunk was given back to the global allocator by a &self operation (outside reset/drop)");
                 // (before the follow-up request: a request that reaches the allocator ends the path)
                 vassert!(bump.allocated_bytes_including_metadata() == ledger_live_bytes(), "NEVER: [C03,C08] after a failed initialiser the arena's accounting differs from the blocks it holds (chunk unlinked but not released?)");
+                {
+                    // the Result slot was the only block of the new chunk and is dead: chunk iteration
+                    // yields [finger, footer) of every chunk, so the finger must be back at the footer
+                    let nf = bump.current_chunk_footer.get();
+                    let fp = nf.as_ref().ptr.get().as_ptr() as usize;
+                    vassert!(fp >= nf.as_ref().data.as_ptr() as usize && fp <= nf.as_ptr() as usize,
+                        "NEVER: [C01,C10,C11] finger of the newly acquired chunk lies outside that chunk after a failed initialiser");
+                    vassert!(nf.as_ref().ptr.get().as_ptr() as usize == nf.as_ptr() as usize,
+                        "NEVER: [C10,C11] after a failed initialiser the new chunk still reports allocated bytes (chunk iteration would yield the dead reservation)");
+                }
                 let nreq = NREQ;
                 FORBID_ALLOC = true;
                 let again = bump.try_alloc_layout(Layout::new::<Result<T, E>>());
